@@ -247,10 +247,21 @@ fn compile<E: Entry>(
     ast: &ast::ScriptFile,
     ctx: &mut CompilerContext,
 ) -> Result<MissionMsg<E>, ErrorReported> {
+    // refuse items with code up front; the passes below cannot handle them without a language
+    ast.items.iter().map(|item| match &item.value {
+        ast::Item::Meta { .. } | ast::Item::ConstVar { .. } => Ok(()),
+        _ => Err(ctx.emitter.emit(error!(
+            message("feature not supported by format"),
+            primary(item, "not supported by mission.msg"),
+        ))),
+    }).collect_with_recovery::<()>()?;
+
     let ast = {
         let mut ast = ast.clone();
 
         // reduced set of passes because only compile-time stuff is possible
+        // (everything left is a const context, where this diagnoses raw registers and instructions)
+        crate::passes::resolution::assign_languages(&mut ast, crate::LanguageKey::Msg, ctx)?;
         crate::passes::resolution::resolve_names(&ast, ctx)?;
         crate::passes::type_check::run(&ast, ctx)?;
         crate::passes::evaluate_const_vars::run(ctx)?;
